@@ -58,3 +58,22 @@ contract("statham.schema.exceptions:FeatureNotImplementedError.unsupported_keywo
          result_cls="FeatureNotImplementedError", props=["C20"])
 contract("statham.schema.exceptions:SchemaParseError.missing_title", requires="True", returns="True", result_cls="SchemaParseError", props=["C10"])
 contract("statham.schema.exceptions:SchemaParseError.invalid_type", requires="True", returns="True", result_cls="SchemaParseError", props=["C10"])
+
+# ---- element construction used by the parser's composition logic (C06/C07: what the parser builds for composition keywords)
+_KW = ["default", "const", "enum", "items", "additionalItems", "minItems", "maxItems", "uniqueItems", "contains", "minimum", "maximum",
+       "exclusiveMinimum", "exclusiveMaximum", "multipleOf", "format", "pattern", "minLength", "maxLength", "required", "patternProperties",
+       "additionalProperties", "minProperties", "maxProperties", "propertyNames", "dependencies", "description"]
+contract("statham.schema.elements.base:Element.__init__",
+         requires="is_np(properties) or is_dict(properties) or isinstance(properties, _PropertyDict)",
+         returns=" and ".join(f"self.{k} is {k}" for k in _KW) + " and implies(is_np(properties), self._properties is properties)",
+         modifies=["self", "properties"], props=["C06", "C07", "C18"])
+
+for _K in ("AllOf", "AnyOf", "OneOf"):
+    contract(PA + "_compose_elements", inst=_K,
+             requires="is_list(elements) and forall(lambda j: is_obj(elements[j]), len(elements))",
+             returns="implies(len(elements) == 1, result is elements[0]) and "
+                     "implies(len(elements) == 0, type_is(result, Element) and is_np(result.default) and is_np(result._properties)) and "
+                     f"implies(len(elements) >= 2, type_is(result, {_K}) and is_np(result.default) and is_list(result.elements) and "
+                     "len(result.elements) == len(elements) and forall(lambda j: result.elements[j] is elements[j], len(elements)))",
+             kinds={"elements": "list", "element_type": "class:" + _K}, ghost={"result_fresh_unless": "len(elements) == 1"},
+             props=["C06", "C07", "C20", "C01"])
